@@ -148,6 +148,10 @@ CONFIGS = {
     "list_int_1_3": dict(kind="list", trait=lambda: List(Int, minlen=1,
                                                          maxlen=3),
                          dom=INT, minlen=1, maxlen=3),
+    # equal bounds: the length can never change
+    "list_int_2_2": dict(kind="list", trait=lambda: List(Int, [0, 0],
+                                                         minlen=2, maxlen=2),
+                         dom=INT, minlen=2, maxlen=2),
     "list_cint_0_2": dict(kind="list", trait=lambda: List(CInt, maxlen=2),
                           dom=CINT, minlen=0, maxlen=2),
     "list_int_noitems": dict(kind="list",
